@@ -1666,6 +1666,12 @@ MUTANTS = [
     _m("seed-set-values-skips-empty-blocks",
        "                num_dofs = int(self._variable_num_dofs[variable_number])\n",
        "                num_dofs = int(self._variable_num_dofs[variable_number])\n                if num_dofs == 0:\n                    continue\n", "R3"),
+    _m("revert-fix-additive-store-keeps-caller-dtype",
+       "            data[loc][name][index] = np.array(\n                values, dtype=np.result_type(values, float)\n            )\n",
+       "            data[loc][name][index] = values.copy()\n", "R5", control=True, file=ADUTILS),
+    _m("revert-fix-create-variables-lookup-inside-mutation-loop",
+       "        for grid, data in zip(grids, grid_data):\n            if subdomains:\n",
+       "        for grid in grids:\n            data = self.mdg.subdomain_data(grid) if subdomains else self.mdg.interface_data(grid)\n            if subdomains:\n", "R1"),
     _m("create-variables-no-recluster", "        # New optimized order\n        self._cluster_dofs_gridwise()\n",
        "        # New optimized order\n        pass\n", "R1"),
     _m("subsystem-no-recluster", "        new_equation_system._cluster_dofs_gridwise()\n", "        pass\n", "R1"),
